@@ -656,6 +656,11 @@ func (m *Manager) publishBlockInternal(ctx context.Context) error {
 					m.logger.Info("no batch retrieved from sequencer, skipping block production")
 					return nil
 				}
+				// an empty block is subject to the same timestamp rule as any other block: saved early with
+				// a timestamp before its predecessor's it would fail validation at this height for ever
+				if batchData.Before(lastHeaderTime) {
+					return fmt.Errorf("timestamp is not monotonically increasing: %s < %s", batchData.Time, m.getLastBlockTime())
+				}
 				m.logger.Info("creating empty block, height: ", newHeight)
 			} else {
 				m.logger.Warn("failed to get transactions from batch", "error", err)
